@@ -23,6 +23,7 @@ import (
 	"sort"
 	"strings"
 	"sync"
+	"time"
 
 	"github.com/ontio/ontology-crypto/ec"
 	"github.com/ontio/ontology-crypto/keypair"
@@ -825,6 +826,11 @@ func main() {
 			byteStringCase(base.Sub(uint64(c*chunk + j)))
 		}
 	})
+
+	t0dbg := time.Now()
+	operandFamily(rng.Sub(4<<40), workers)
+	fmt.Println("DBG operand family", time.Since(t0dbg))
+	operandRequirements()
 
 	for k := txgen.Kind(0); k < txgen.NumKinds; k++ {
 		r.Require("single_key_"+k.String(), txgen.PoolSize)
